@@ -97,6 +97,25 @@ def k_numpy_tables(ctx, cases):
                 cases.append((f'CInplace {opn} {a} (Strong {b}) {res}', ('inplace_operator', opn, a, b, res)))
 
 
+def k_reductions(ctx, cases):
+    """np.sum / mean / std / var / nansum / ... accumulate (and return) in float16/float32 exactly for float16/
+    float32 input; integers are widened"""
+    funcs = [np.sum, np.mean, np.std, np.var, np.nansum, np.nanmean, np.nanstd, np.prod, np.cumsum, np.ma.sum,
+             lambda x: x.sum(), lambda x: x.mean(), lambda x: np.dot(x, x)]
+    for d in BASE_DT:
+        x = np.ones(4, dtype=DT2NP[d])
+        kinds = set()
+        for f in funcs:
+            with warnings.catch_warnings():
+                warnings.simplefilter('ignore')
+                kinds.add(np.asarray(f(x)).dtype.name in ('float16', 'float32'))
+        if len(kinds) != 1:
+            ctx.violation('correspondence:C15_Model.reductions', 'numpy reductions disagree among themselves about the '
+                          'accumulator of dtype ' + d, {'dtype': d}, found_input=False)
+        cases.append((f'CReduce {d} {"true" if True in kinds else "false"}', ('reduce', d, sorted(kinds))))
+        ctx.count_case(['reduce', d])
+
+
 def k_dispatch(ctx, cases):
     """which branch photutils.utils._stats._dtype_dispatch takes, per dtype and byte order"""
     from photutils.utils import _stats
@@ -483,18 +502,30 @@ BOOL_FUNCS = {'np.isfinite', 'np.isnan', 'np.isinf', 'np.logical_or', 'np.logica
 KERNEL_FUNCS = {'ndi_convolve', 'map_coordinates', 'convolve'}
 MAXMIN_FUNCS = {'np.maximum', 'np.minimum', 'np.fmax', 'np.fmin'}
 # consume arrays of any dtype and return something that is not tracked further
-OTHER_FUNCS = {'np.sum', 'np.nansum', 'np.mean', 'np.nanmean', 'np.median', 'np.nanmedian', 'np.min', 'np.max',
-               'np.nanmin', 'np.nanmax', 'np.std', 'np.nanstd', 'np.count_nonzero', 'np.ndim', 'np.shape',
+# reductions that accumulate in the dtype of a float input (IReduce); the photutils.utils._stats wrappers
+# send everything but native float64 to the numpy functions
+REDUCE_FUNCS = {'np.sum', 'np.nansum', 'np.mean', 'np.nanmean', 'np.std', 'np.nanstd', 'np.var', 'np.nanvar',
+                'np.prod', 'np.average', 'np.ma.sum', 'np.ma.mean', 'np.ma.std', 'np.cumsum', 'nansum', 'nanmean',
+                'nanstd', 'nanvar'}
+REDUCE_METHODS = {'sum', 'mean', 'std', 'var', 'prod', 'cumsum'}
+OTHER_FUNCS = {'np.median', 'np.nanmedian', 'nanmedian', 'np.count_nonzero', 'np.unravel_index', 'np.nanargmax',
+               'np.nanargmin', 'np.isclose', 'np.allclose', 'np.ma.count', 'np.ma.is_masked', 'np.ma.getmaskarray', 'np.argsort',
+               'np.searchsorted', 'np.result_type', 'np.can_cast', 'np.ndim', 'np.shape',
                'len', 'getattr', 'np.prod', 'np.ptp', 'np.argmax', 'np.argmin',
                'print', 'repr', 'str', 'id', 'type', 'np.size', 'np.nonzero', 'warnings.warn', 'zip', 'list',
                'tuple', 'enumerate', 'range', 'slice', 'max', 'min', 'int', 'float', 'as_pair'}
+# element selection: the result has the dtype of the input and is one (or a rearrangement) of its elements
+SELECT_FUNCS = {'np.min', 'np.max', 'np.nanmin', 'np.nanmax', 'nanmin', 'nanmax', 'np.amin', 'np.amax',
+                'maximum_filter', 'minimum_filter', 'np.sort', 'np.flip', 'np.roll', 'np.take', 'np.pad',
+                'np.ma.filled', 'np.nan_to_num', 'np.abs', 'np.absolute', 'np.fabs', 'np.negative', 'abs'}
 FRESH_F64_FUNCS = {'np.zeros', 'np.ones', 'np.empty', 'np.full'}
 ALIAS_METHODS = {'reshape', 'ravel', 'view', 'squeeze', 'transpose', 'swapaxes'}
 COPY_METHODS = {'copy', 'flatten', 'filled', 'compressed'}
-OTHER_METHODS = {'sum', 'mean', 'min', 'max', 'std', 'var', 'any', 'all', 'argmax', 'argmin', 'nonzero',
+SELECT_METHODS = {'min', 'max', 'clip_', 'take', 'round'}
+OTHER_METHODS = {'any', 'all', 'argmax', 'argmin', 'nonzero',
                  'tolist', 'item', 'to', 'to_value', 'append', 'extend', 'update', 'pop', 'get', 'keys',
                  'values', 'items'}
-ALIAS_ATTRS = {'value', 'data', 'T', 'real', 'array', 'quantity'}
+ALIAS_ATTRS = {'value', 'data', 'T', 'real', 'array', 'quantity', 'flat'}
 OTHER_ATTRS = {'shape', 'dtype', 'ndim', 'size', 'mask', 'isscalar', 'meta', 'wcs', 'uncertainty', 'colnames',
                'flags', 'strides', 'itemsize', 'nbytes'}
 UNIT_ATTRS = {'unit'}
@@ -536,7 +567,8 @@ class St:
 
 
 class Extractor:
-    def __init__(self, path, src, qualname, inputs, known=None, opaque=(), max_paths=512):
+    def __init__(self, path, src, qualname, inputs, known=None, opaque=(), max_paths=512, bind=None):
+        self.bind = dict(bind or {})         # parameter name -> dtype name it is bound to at every call site
         self.path, self.qualname = path, qualname
         self.known = dict(known or {})       # dotted name -> class for untracked names
         self.opaque = set(opaque)            # callees that accept tracked arrays of any dtype (checked elsewhere)
@@ -584,6 +616,8 @@ class Extractor:
 
     def dtype_of(self, node):
         d = dotted(node)
+        if d in self.bind:
+            return DTYPES[self.bind[d]]
         if d in DTYPES:
             return DTYPES[d]
         if isinstance(node, ast.Constant) and isinstance(node.value, str) and node.value in STR_DTYPES:
@@ -614,6 +648,8 @@ class Extractor:
                 return ('nan',)
             if d in ('np.pi', 'np.e'):
                 return ('py', 'float', 3.14)
+        if d is not None and (d in DTYPES or d in self.bind):
+            return ('dtype', self.dtype_of(node))
         if isinstance(node, ast.Name):
             return ('other',)
         if isinstance(node, ast.Attribute):
@@ -623,6 +659,8 @@ class Extractor:
                     v = st.fresh()
                     st.instrs.append(f'IAlias {v} {base[1]}')
                     return ('var', v)
+                if node.attr == 'dtype':
+                    return ('dtypeof', base[1])
                 if node.attr in OTHER_ATTRS:
                     return ('other',)
                 if node.attr in UNIT_ATTRS:
@@ -682,6 +720,8 @@ class Extractor:
             if a[0] == 'var' or b[0] == 'var':
                 if a == b:
                     return a
+                if a[0] == 'var' and b[0] == 'var' and st.instrs and st.instrs[-1] == f'IAlias {a[1]} {b[1]}':
+                    return a          # `x.value if c else x`: a view of x either way
                 if b[0] == 'other' or b == ('py', 'int') and False:
                     raise Untranslatable(self.where(node), 'conditional expression over tracked arrays')
                 raise Untranslatable(self.where(node), 'conditional expression over tracked arrays')
@@ -786,6 +826,8 @@ class Extractor:
 
     def untracked_arith(self, op, a, b, node):
         fl = {'DF32', 'DF64'}
+        if a[1] in ('DI64', 'DBool') and b[1] in ('DI64', 'DBool') and op != 'TrueDiv':
+            return ('arr', 'DI64')            # index arithmetic
         if a[1] in fl or b[1] in fl or op == 'TrueDiv':
             return ('arr', 'DF64' if 'DF64' in (a[1], b[1]) or not (a[1] in fl or b[1] in fl) else 'DF32')
         return ('other',)
@@ -862,6 +904,8 @@ class Extractor:
                 if tr:
                     raise Untranslatable(self.where(node), f'{fname} of several tracked arrays')
                 return ('other',)
+            if first[0] == 'list':               # np.array([... for ...]) of tracked elements
+                first = ('var', first[1])
             if first[0] != 'var':
                 return first if first[0] == 'arr' else ('other',)
             v = st.fresh()
@@ -905,10 +949,51 @@ class Extractor:
             return ('other',)
         if fname in BOOL_FUNCS:
             return ('arr', 'DBool')
+        if fname == 'np.arange' and 'dtype' not in kws:
+            return ('arr', 'DI64') if all(c[0] != 'py' or c[1] != 'float' for c in [first] + rest) else ('arr', 'DF64')
         if fname in FRESH_F64_FUNCS:
             if 'dtype' in kws:
+                dc = self.classify(kws['dtype'], st)
+                if dc[0] == 'dtypeof':         # a new array with the dtype of a tracked array
+                    v = st.fresh()
+                    st.instrs.append(f'ICopy {v} {dc[1]}')
+                    return ('var', v)
+                if dc[0] == 'dtype':
+                    return ('arr', dc[1])
                 return ('arr', self.dtype_of(kws['dtype']))
             return ('arr', 'DF64')
+        if fname in ('np.dot', 'np.matmul', 'np.inner', 'np.outer', 'np.multiply', 'np.add', 'np.subtract'):
+            a, b = first, (rest[0] if rest else ('other',))
+            if a[0] == 'var' or b[0] == 'var':
+                if 'out' in kws and self.classify(kws['out'], st) != ('arr', 'DF64'):
+                    raise Untranslatable(self.where(node), f'{fname} with out= an array that is not known float64')
+                if 'dtype' in kws:
+                    raise Untranslatable(self.where(node), f'{fname} with an explicit loop dtype')
+                op = {'np.add': 'Add', 'np.subtract': 'Sub'}.get(fname, 'Mul')
+                v = st.fresh()
+                st.instrs.append(f'IBin {v} {op} {self.operand(a, args[0], st)} {self.operand(b, args[1], st)}')
+                if fname in ('np.dot', 'np.matmul', 'np.inner'):
+                    st.instrs.append(f'IReduce {v}')        # sums of products, accumulated in the product dtype
+                return ('var', v)
+            return ('arr', 'DF64') if (a == ('arr', 'DF64') or b == ('arr', 'DF64')) else ('other',)
+        if fname in SELECT_FUNCS:
+            if first[0] == 'var':
+                v = st.fresh()
+                st.instrs.append(f'ICopy {v} {first[1]}')
+                return ('var', v)
+            return first if first[0] == 'arr' else ('other',)
+        if fname in REDUCE_FUNCS:
+            acc = self.dtype_of(kws['dtype']) if 'dtype' in kws else None
+            targets = [first] if first[0] != 'tuple' else first[1]
+            for c in targets:
+                if c[0] in ('var', 'list'):
+                    if acc is None:
+                        st.instrs.append(f'IReduce {c[1]}')
+                    elif acc != 'DF64':               # an explicit narrow accumulator
+                        v = st.fresh()
+                        st.instrs.append(f'IAsType {v} {c[1]} {acc}')
+                        st.instrs.append(f'IReduce {v}')
+            return ('other',)
         if fname in OTHER_FUNCS:
             return ('other',)
         allc = [first] + rest + list(kwc.values())
@@ -938,6 +1023,19 @@ class Extractor:
             v = st.fresh()
             st.instrs.append(f'IBin {v} MaxMin (OVar {base[1]}) OPyFloat')
             return ('var', v)
+        if name in SELECT_METHODS:
+            v = st.fresh()
+            st.instrs.append(f'ICopy {v} {base[1]}')
+            return ('var', v)
+        if name in REDUCE_METHODS:
+            acc = self.dtype_of(kws['dtype']) if 'dtype' in kws else None
+            if acc is None:
+                st.instrs.append(f'IReduce {base[1]}')
+            elif acc != 'DF64':
+                v = st.fresh()
+                st.instrs.append(f'IAsType {v} {base[1]} {acc}')
+                st.instrs.append(f'IReduce {v}')
+            return ('other',)
         if name in OTHER_METHODS:
             return ('other',)
         raise Untranslatable(self.where(node), f'method .{name}() of a tracked array')
@@ -1027,6 +1125,8 @@ class Extractor:
                 else:
                     raise Untranslatable(self.where(target), 'item assignment of a value of unknown dtype into a '
                                                              'tracked array')
+            elif cls[0] in ('var', 'list') and base[0] == 'arr' and base[1] not in ('DF64',):
+                raise Untranslatable(self.where(target), 'tracked array stored into a non-float64 array')
             elif cls[0] in ('var', 'list') and base[0] != 'arr':
                 dn = dotted(target.value)
                 if dn is not None and base[0] == 'other':
@@ -1036,10 +1136,20 @@ class Extractor:
         d = dotted(target)
         if d is None:
             raise Untranslatable(self.where(target), f'assignment target {type(target).__name__}')
-        if cls[0] in ('var', 'arr', 'list', 'py', 'unit', 'tuple', 'nan', 'box', 'boxitem'):
+        if cls[0] in ('var', 'arr', 'list', 'py', 'unit', 'tuple', 'nan', 'box', 'boxitem', 'dtype', 'dtypeof'):
             st.env[d] = cls
         else:
             st.env.pop(d, None)
+
+    def bound_none_test(self, test):
+        """`name is None` / `name is not None` on a parameter that is bound (hence not None): its truth"""
+        if isinstance(test, ast.Compare) and len(test.ops) == 1 and dotted(test.left) in self.bind \
+                and isinstance(test.comparators[0], ast.Constant) and test.comparators[0].value is None:
+            if isinstance(test.ops[0], ast.IsNot):
+                return True
+            if isinstance(test.ops[0], ast.Is):
+                return False
+        return None
 
     def dtype_test(self, test, st):
         """recognise a test on the dtype of a tracked array -> (pred, name, var) or None"""
@@ -1078,7 +1188,12 @@ class Extractor:
                     nxt.append((cur, status))
                 else:
                     nxt.extend(self.stmt(s, cur))
-            states = nxt
+            seen, states = set(), []
+            for (cur, status) in nxt:             # paths that did the same things are one path
+                key = (status, tuple(cur.instrs), tuple(cur.inputs), repr(sorted(cur.env.items())))
+                if key not in seen:
+                    seen.add(key)
+                    states.append((cur, status))
             if len(states) > self.max_paths:
                 raise Untranslatable(self.where(s), 'too many paths')
         return states
@@ -1088,6 +1203,16 @@ class Extractor:
             self.classify(s.value, st)
             return [(st, 'fall')]
         if isinstance(s, ast.Assign):
+            if isinstance(s.value, ast.IfExp):          # x = a if c else b : one path per alternative
+                self.classify(s.value.test, st)
+                out = []
+                for alt in (s.value.body, s.value.orelse):
+                    f = st.fork()
+                    cls = self.classify(alt, f)
+                    for t in s.targets:
+                        self.assign(t, cls, alt, f)
+                    out.append((f, 'fall'))
+                return out
             cls = self.classify(s.value, st)
             for t in s.targets:
                 self.assign(t, cls, s.value, st)
@@ -1132,9 +1257,11 @@ class Extractor:
                 t = self.dtype_of(call.args[0] if call.args else {k.arg: k.value for k in call.keywords}['dtype'])
                 st.instrs.append(f'ICondAsType {pred} {var} {t}')
                 return [(st, 'fall')]
+            feas = self.bound_none_test(s.test)
             self.classify(s.test, st)
-            a = self.walk(s.body, st.fork())
-            b = self.walk(s.orelse, st.fork()) if s.orelse else [(st.fork(), 'fall')]
+            a = self.walk(s.body, st.fork()) if feas in (None, True) else []
+            b = ((self.walk(s.orelse, st.fork()) if s.orelse else [(st.fork(), 'fall')])
+                 if feas in (None, False) else [])
             return a + b
         if isinstance(s, (ast.For, ast.AsyncFor)):
             it = self.classify(s.iter, st)
@@ -1263,11 +1390,13 @@ def renumber(p):
             toks[1] = m(toks[1])
         elif head == 'IInplace':
             toks[2] = m(toks[2])
-        elif head in ('ISetNaN', 'ISetConst', 'ISetFrom'):
+        elif head in ('ISetNaN', 'ISetConst', 'ISetFrom', 'IReduce'):
             toks[1] = m(toks[1])
         s = ' '.join(toks)
         s = re.sub(r'\(OVar (\d+)\)', lambda mo: f'(OVar {mapping[int(mo.group(1))]})', s)
         out.append(s)
+    ret = p.returned
+    p.returned_var = mapping[ret[1]] if ret is not None and ret[0] in ('var', 'list') else None
     return out, [n for (n, _) in p.inputs], nxt
 
 
@@ -1276,6 +1405,7 @@ def renumber(p):
 # bool); opaque = callees that accept tracked arrays of any dtype (covered by the product test)
 F64 = ('arr', 'DF64')
 B = ('arr', 'DBool')
+I64 = ('arr', 'DI64')
 TARGETS = [
     dict(name='calc_total_error', file='photutils/utils/errors.py', func='calc_total_error',
          inputs=['data', 'bkg_error', 'effective_gain'], known={}, opaque=[]),
@@ -1327,7 +1457,139 @@ TARGETS = [
                  'tbl.meta.update', 'aper_meta.update', 'skycoord_pos.reshape']),
     dict(name='ApertureStats._unpack_nddata', file='photutils/aperture/stats.py',
          func='ApertureStats._unpack_nddata', inputs=['data', 'error'], known={}, opaque=[]),
+    # ---- round 5: input handling and arithmetic of the other entry points of the product test
+    dict(name='ApertureMask.cutout', file='photutils/aperture/mask.py', func='ApertureMask.cutout', inputs=['data'],
+         known={'fill_value': ('py', 'float', 0.0)}, opaque=['self.get_overlap_slices']),
+    dict(name='ApertureMask.multiply', file='photutils/aperture/mask.py', func='ApertureMask.multiply', inputs=[],
+         known={'fill_value': ('py', 'float', 0.0), 'self.data': F64, 'self._mask': B,
+                'self.cutout()': ('input', 'cutout')}, opaque=['self.cutout']),
+    dict(name='ApertureMask.get_values', file='photutils/aperture/mask.py', func='ApertureMask.get_values',
+         inputs=['data'], known={'self._get_overlap_cutouts()': ('tuple', [('other',), F64, B])},
+         opaque=['self._get_overlap_cutouts']),
+    dict(name='centroid_quadratic', file='photutils/centroids/core.py', func='centroid_quadratic', inputs=['data'],
+         known={'coeff_matrix': I64},
+         opaque=['as_pair', 'overlap_slices', 'py2intround', 'np.linalg.lstsq', 'np.meshgrid']),
+    dict(name='centroid_sources', file='photutils/centroids/core.py', func='centroid_sources', inputs=['data'],
+         known={}, opaque=['centroid_func', 'overlap_slices', 'inspect.signature', 'as_pair']),
+    dict(name='find_peaks', file='photutils/detection/peakfinder.py', func='find_peaks',
+         inputs=['data', 'threshold', 'error'], known={},
+         opaque=['as_pair', 'QTable', '_get_meta', 'table.meta.update', 'wcs.pixel_to_world', 'table.add_column',
+                 'centroid_sources', 'table.colnames.index', 'peak_goodmask.nonzero']),
+    dict(name='detect_sources', file='photutils/segmentation/detect.py', func='detect_sources',
+         inputs=['data', 'threshold'], known={}, opaque=['_make_binary_structure', '_detect_sources']),
+    dict(name='process_quantities', file='photutils/utils/_quantity_helpers.py', func='process_quantities',
+         inputs=['values'], known={}, opaque=[]),
+    dict(name='SourceCatalog._prepare_cutouts[dtype=float]', file='photutils/segmentation/catalog.py',
+         func='SourceCatalog._prepare_cutouts', inputs=['arrays'], known={'self._cutout_total_masks': B}, opaque=[],
+         bind={'dtype': 'float'}, returns='DF64', call_sites=[('_prepare_cutouts', 'dtype', 'float')]),
+    # the values summed are those _prepare_cutouts[dtype=float] returns (float64, obligation above)
+    dict(name='SourceCatalog.segment_flux', file='photutils/segmentation/catalog.py',
+         func='SourceCatalog.segment_flux', inputs=['self._data_values'], known={}, opaque=[],
+         typed={'self._data_values': ['DF64']}),
+    dict(name='SourceCatalog.min_value', file='photutils/segmentation/catalog.py', func='SourceCatalog.min_value',
+         inputs=['self._data_values', 'self._local_background'], known={}, opaque=[],
+         typed={'self._data_values': ['DF64'], 'self._local_background': ['DF64']}),
+    dict(name='SourceCatalog.max_value', file='photutils/segmentation/catalog.py', func='SourceCatalog.max_value',
+         inputs=['self._data_values', 'self._local_background'], known={}, opaque=[],
+         typed={'self._data_values': ['DF64'], 'self._local_background': ['DF64']}),
+    dict(name='SourceCatalog._local_background', file='photutils/segmentation/catalog.py',
+         func='SourceCatalog._local_background', inputs=['self._data'],
+         known={'aperture_mask.data': F64, 'self._mask': B, 'self._segment_img.data': I64},
+         opaque=['self._make_cutout_data_mask', 'aperture_mask.get_overlap_slices', 'sigma_clipped_stats',
+                 'add_progress_bar', 'SigmaClip', 'sigclip', 'bkg_func']),
+    dict(name='SourceCatalog._validate_array', file='photutils/segmentation/catalog.py',
+         func='SourceCatalog._validate_array', inputs=['array'], known={}, opaque=[]),
+    dict(name='SourceCatalog.__init__', file='photutils/segmentation/catalog.py', func='SourceCatalog.__init__',
+         inputs=['data', 'convolved_data', 'error', 'background'], known={},
+         opaque=['self._validate_segment_img', 'self._validate_localbkg_width', 'self._validate_apermask_method',
+                 'self._validate_kron_params', 'self._validate_detection_cat', '_get_meta', 'self._update_meta',
+                 'setattr', 'getattr']),
+    dict(name='_mask_to_mirrored_value', file='photutils/segmentation/utils.py', func='_mask_to_mirrored_value',
+         inputs=['data'], known={}, opaque=[]),
+    dict(name='deblend_sources', file='photutils/segmentation/deblend.py', func='deblend_sources', inputs=['data'],
+         known={}, opaque=['_DeblendParams', 'segment_img.check_labels', 'add_progress_bar', '_deblend_source',
+                           'get_context', 'segment_img.copy', 'segment_img._update_deblend_label_map',
+                           'as_completed', 'executor.submit', 'cf.ProcessPoolExecutor',
+                           'segm_deblended.__dict__.pop', 'segm_deblended.relabel_consecutive', 'warnings.warn',
+                           'np.unique', 'np.atleast_1d']),
+    dict(name='PSFPhotometry._validate_array', file='photutils/psf/photometry.py',
+         func='PSFPhotometry._validate_array', inputs=['array'], known={}, opaque=[]),
+    dict(name='ModelImageMixin.make_residual_image', file='photutils/psf/photometry.py',
+         func='ModelImageMixin.make_residual_image', inputs=['data'], known={'self.make_model_image()': F64},
+         opaque=['deepcopy', 'self.make_residual_image', 'self.make_model_image']),
+    dict(name='ApertureStats.__init__', file='photutils/aperture/stats.py', func='ApertureStats.__init__',
+         inputs=['data', 'error', 'local_bkg'], known={},
+         opaque=['self._unpack_nddata', 'self._validate_aperture', '_aperture_metadata', 'region_to_aperture',
+                 '_get_meta', 'self.meta.update']),
+    dict(name='ApertureStats._validate_array', file='photutils/aperture/stats.py',
+         func='ApertureStats._validate_array', inputs=['array'], known={}, opaque=[]),
+    dict(name='Background2D.__init__', file='photutils/background/background_2d.py', func='Background2D.__init__',
+         inputs=['data'], known={},
+         opaque=['as_pair', 'self._calculate_stats', 'nanmin', 'self._calculate_mesh_yxcen']),
+    dict(name='ProfileBase.__init__', file='photutils/profiles/core.py', func='ProfileBase.__init__',
+         inputs=['data', 'error'], known={}, opaque=['self._validate_radii', 'self._compute_mask']),
+    dict(name='_moments_central', file='photutils/utils/_moments.py', func='_moments_central', inputs=['data'],
+         known={'indices': I64, 'center': ('arr', 'DF64')}, opaque=['centroid_com']),
+    dict(name='_StarFinderCatalog.cutout_data', file='photutils/detection/starfinder.py',
+         func='_StarFinderCatalog.cutout_data', inputs=['self.data'], known={}, opaque=[]),
 ]
+
+# Candidates that are NOT obligations, with the reason (re-evaluated on every run and written to the evidence).
+# 'pinned-rejected': the analysis rejects the pinned source itself -- these functions accumulate or subtract in the
+# dtype of a float32 input (allowed by the property text "to float32 precision", observed at the 1e-8 level) or
+# in an integer dtype, so accepting them would need a weaker hazard notion than the one proved about.
+REFUSED = [
+    dict(name='centroid_com', file='photutils/centroids/core.py', func='centroid_com', inputs=['data'],
+         known={'indices': I64}, opaque=[], reason='pinned-rejected: np.sum(data) accumulates in float32 for '
+         'float32 data (1.7e-8 relative observed); index*data is int64 arithmetic for integer data'),
+    dict(name='centroid_1dg', file='photutils/centroids/gaussian.py', func='centroid_1dg', inputs=['data', 'error'],
+         known={}, opaque=['_gaussian1d_moments', 'Gaussian1D', 'fitter', 'TRFLSQFitter'],
+         reason='pinned-rejected: np.ma.sum(data, axis) in the input dtype; MaskedArray ** is not modelled '
+                '(np.ma.power widens); the fit itself is outside the IR'),
+    dict(name='centroid_2dg', file='photutils/centroids/gaussian.py', func='centroid_2dg', inputs=['data', 'error'],
+         known={}, opaque=['data_properties', 'TRFLSQFitter', 'fitter', 'Gaussian2D', 'Const2D'],
+         reason='pinned-rejected: data - min(data) in the input dtype; the fit itself is outside the IR'),
+    dict(name='SourceCatalog.background_mean', file='photutils/segmentation/catalog.py',
+         func='SourceCatalog.background_mean', inputs=['self._background_values'], known={}, opaque=[],
+         reason='pinned-rejected: np.mean over the caller background values in their own dtype (2e-8 for float32)'),
+    dict(name='SourceCatalog.background_sum', file='photutils/segmentation/catalog.py',
+         func='SourceCatalog.background_sum', inputs=['self._background_values'], known={}, opaque=[],
+         reason='pinned-rejected: np.sum over the caller background values in their own dtype'),
+    dict(name='_DAOStarFinderCatalog.flux', file='photutils/detection/daofinder.py',
+         func='_DAOStarFinderCatalog.flux', inputs=['self.cutout_data'], known={}, opaque=[],
+         reason='pinned-rejected: np.sum of cutouts in the dtype of the image (float32 accumulation, 1e-7 in mag)'),
+    dict(name='PSFPhotometry._define_fit_data', file='photutils/psf/photometry.py',
+         func='PSFPhotometry._define_fit_data', inputs=['data'], known={'local_bkg': ('py', 'float', 0.5)},
+         opaque=['overlap_slices', '_flatten', 'np.where', 'np.ceil'],
+         reason='pinned-rejected: data[yy, xx] - local_bkg is float32 arithmetic for float32 data'),
+    dict(name='detect_threshold', file='photutils/segmentation/detect.py', func='detect_threshold',
+         inputs=['data', 'background', 'error'], known={'sigma_clip()': ('input', 'clipped_data')},
+         opaque=['sigma_clip'], reason='not expressible: the statistics come from astropy SigmaClip + nanmean/nanstd '
+         'of its float32 output; broadcast arithmetic on scalars of library-determined dtype'),
+    dict(name='gini', file='photutils/morphology/non_parametric.py', func='gini', inputs=['data'], known={},
+         opaque=[], reason='pinned-rejected / not expressible: np.mean and np.sum(kernel * sorted values) in the input '
+                            'dtype (8e-8 for float32); index arithmetic of unknown dtype'),
+    dict(name='_gaussian1d_moments', file='photutils/centroids/gaussian.py', func='_gaussian1d_moments',
+         inputs=['data'], known={'x': I64}, opaque=[],
+         reason='not expressible: arithmetic between the data and scalars derived from reductions of the data'),
+    dict(name='_IRAFStarFinderCatalog.cutout_data', file='photutils/detection/irafstarfinder.py',
+         func='_IRAFStarFinderCatalog.cutout_data', inputs=['self.cutout_data_nosub', 'self.sky'],
+         known={'self.kernel.mask': I64}, opaque=[],
+         reason='pinned-rejected: cutouts - sky where sky has the dtype the reduction of the cutouts produced '
+                '(float32 - float32 for float32 images)'),
+]
+NOT_ATTEMPTED = {
+    'Background2D._compute_box_statistics / background estimator classes / LocalBackground.__call__':
+        'the arithmetic is inside astropy SigmaClip, numpy/bottleneck reductions and the estimator objects '
+        '(library calls on the tracked array): no photutils-level array operation to express',
+    '_detect_sources / SegmentationImage': 'only comparisons with the data; label arithmetic is on scipy label arrays',
+    'DAOStarFinder/IRAFStarFinder/StarFinder._get_raw_catalog': 'kernel arithmetic only; the data go to _filter_data '
+        '(obligation) and find_peaks (obligation)',
+    'isophote (Ellipse, EllipseSample)': 'pixel sampling in Python loops with scalar arithmetic and iterative fits',
+    'PSFPhotometry._fit_sources, fit_2dgaussian, fit_fwhm': 'astropy fitters on the cutouts',
+    'RadialProfile/CurveOfGrowth.profile, profile_error': 'arithmetic on the float64 outputs of do_photometry '
+        '(obligation), not on caller arrays',
+}
 # ====================================================================== V: the product test
 import astropy.units as u
 from astropy.nddata import NDData, StdDevUncertainty
@@ -2146,6 +2408,19 @@ TARGET_ENTRIES = {
     'SourceCatalog.segment_fluxerr': ['SourceCatalog'], 'SourceCatalog._aperture_photometry': ['SourceCatalog'],
     'SourceCatalog.background_centroid': ['SourceCatalog'],
     'PSFPhotometry._prepare_fit_inputs': ['PSFPhotometry'], 'PSFPhotometry.__call__': ['PSFPhotometry'],
+    'ApertureMask.cutout': ['ApertureMask'], 'ApertureMask.multiply': ['ApertureMask'],
+    'ApertureMask.get_values': ['ApertureMask', 'LocalBackground'],
+    'centroid_quadratic': ['centroids'], 'centroid_sources': ['centroids'], 'find_peaks': ['find_peaks', 'finders'],
+    'detect_sources': ['segmentation'], 'deblend_sources': ['segmentation'],
+    'process_quantities': ['segmentation', 'find_peaks', 'profiles'],
+    'SourceCatalog._prepare_cutouts[dtype=float]': ['SourceCatalog'], 'SourceCatalog.segment_flux': ['SourceCatalog'],
+    'SourceCatalog.min_value': ['SourceCatalog'], 'SourceCatalog.max_value': ['SourceCatalog'],
+    'SourceCatalog._local_background': ['SourceCatalog'], 'SourceCatalog._validate_array': ['SourceCatalog'],
+    'SourceCatalog.__init__': ['SourceCatalog', 'morphology'], '_mask_to_mirrored_value': ['SourceCatalog'],
+    'PSFPhotometry._validate_array': ['PSFPhotometry'], 'ModelImageMixin.make_residual_image': ['PSFPhotometry'],
+    'ApertureStats.__init__': ['ApertureStats'], 'ApertureStats._validate_array': ['ApertureStats'],
+    'Background2D.__init__': ['Background2D'], 'ProfileBase.__init__': ['profiles'],
+    '_moments_central': ['finders', 'SourceCatalog'], '_StarFinderCatalog.cutout_data': ['finders'],
 }
 
 
@@ -2169,9 +2444,10 @@ def new_scene(rng):
 
 
 def bright(sc):
-    """the same scene with pixel values x256 (still exact float32 integers < 2**24, sums well above 2**24)"""
+    """the same scene with pixel values x255 (still exact float32 integers < 2**24; an odd factor, so that sums
+    above 2**24 are not multiples of a power of two and a float32 accumulator really rounds)"""
     b = dict(sc)
-    b['img'], b['err'], b['gal'] = sc['img'] * 256, sc['err'] * 16, sc['gal'] * 256
+    b['img'], b['err'], b['gal'] = sc['img'] * 255, sc['err'] * 15, sc['gal'] * 255
     return b
 
 
@@ -2223,6 +2499,17 @@ FLOAT32_EXACT = {'aperture_photometry', 'ApertureStats', 'SourceCatalog', 'profi
 FLOAT32_EXACT_EXCEPT = {'A:background_mean', 'A:background_sum', 'gini'}
 
 
+def float32_exact_output(name, key):
+    """is this output required to equal the float64 run to 1e-12 for float32 input?"""
+    if name not in FLOAT32_EXACT or key in FLOAT32_EXACT_EXCEPT:
+        return False
+    if name == 'centroids':
+        # centroid_com / centroid_1dg / centroid_2dg sum the float32 cutout in float32 on the pinned tree (1.7e-8
+        # relative observed; listed under refused_candidates): only centroid_quadratic converts to float64 first
+        return 'quadratic' in key
+    return True
+
+
 def compare_entry(name, rep, ref, got):
     """-> list of (kind, output, message); kind in differs / raises / unit / missing"""
     f = ENTRY_POINTS[name]
@@ -2253,7 +2540,7 @@ def compare_entry(name, rep, ref, got):
             continue          # values read from an integer image keep its integer dtype
         if cls == 'float32' and k in getattr(f, 'ill_conditioned_in_float32', ()):
             continue          # fits of residual-noise detections: float32 rounding is amplified without bound
-        m = compare(r, g, 'tight' if tight and k not in FLOAT32_EXACT_EXCEPT else tol)
+        m = compare(r, g, 'tight' if tight and float32_exact_output(name, k) else tol)
         if m:
             probs.append(('differs', k, m))
         elif compare(r, g, 'exact') is None:
@@ -2551,34 +2838,94 @@ def run_nddata_units(ctx, sc):
 
 
 # ---------------------------------------------------------------- obligations
+def check_call_sites(file, src, callee, kw, val):
+    """every call of `callee` in the file that passes keyword `kw` passes the name `val`"""
+    for node in ast.walk(ast.parse(src)):
+        if isinstance(node, ast.Call) and (dotted(node.func) or '').endswith(callee):
+            for k in node.keywords:
+                if k.arg == kw and dotted(k.value) != val:
+                    raise Untranslatable(f'{file}:{node.lineno}', f'{callee}({kw}={ast.unparse(k.value)}) is not '
+                                                                   f'{kw}={val}')
+
+
+def obligation_cases(t, root):
+    """one target -> (list of (coq term, meta), extractor); raises Untranslatable"""
+    path = root / t['file']
+    src = path.read_text()
+    ex = Extractor(t['file'], src, t['func'], t['inputs'], t['known'], t['opaque'], bind=t.get('bind'))
+    progs = ex.programs()
+    for callee, kw, val in t.get('call_sites', ()):      # the binding must hold at every call site
+        check_call_sites(t['file'], src, callee, kw, val)
+    out = []
+    for p in progs:
+        ins, names, nv = renumber(p)
+        if not ins:
+            continue
+        prog = f'[{"; ".join(ins)}]%nat'
+        typed = t.get('typed', {})
+        sets = '[' + '; '.join('[' + '; '.join(typed[nm]) + ']' if nm in typed else 'allowed_inputs'
+                               for nm in names) + ']'
+        meta = ('obligation', t['name'], names, ins)
+        if t.get('returns') and getattr(p, 'returned_var', None) is not None:
+            out.append((f"CReturns {prog} {sets} {p.returned_var}%nat {t['returns']}", meta))
+        elif typed:
+            out.append((f'CObligationT {prog} {sets}', meta))
+        else:
+            out.append((f'CObligation {prog} {len(names)}', meta))
+    return out, ex
+
+
 def extract_obligations(ctx, cases):
-    """IR programs of the anchored mechanisms from the current source -> CObligation cases"""
+    """IR programs of the anchored mechanisms from the current source -> obligation cases"""
     for t in TARGETS:
-        path = REPO / t['file']
         try:
-            ex = Extractor(t['file'], path.read_text(), t['func'], t['inputs'], t['known'], t['opaque'])
-            progs = ex.programs()
+            cs, ex = obligation_cases(t, REPO)
         except Untranslatable as e:
             ctx.stat('obligations', 'untranslatable')
             cases.append((None, ('untranslatable', t['name'], str(e))))
+            ctx.obligations += 1
             continue
         except (OSError, SyntaxError) as e:
             cases.append((None, ('untranslatable', t['name'], f'{type(e).__name__}: {e}')))
+            ctx.obligations += 1
             continue
-        n = 0
-        for p in progs:
-            ins, names, nv = renumber(p)
-            if not ins:
-                continue
-            n += 1
-            cases.append((f'CObligation [{"; ".join(ins)}]%nat {len(names)}',
-                          ('obligation', t['name'], names, ins)))
+        cases.extend(cs)
+        n = len(cs)
+        t = dict(t, lines=f'{ex.fn.lineno}-{ex.fn.end_lineno}')
         ctx.stat('obligations', 'programs', n)
         ctx.stat('obligation_paths', t['name'], n)
         ctx.obligations += 1
         ctx.cov.setdefault('extracted', {})[t['name']] = {
-            'file': t['file'], 'paths': n, 'opaque_callees_assumed_dtype_agnostic': sorted(ex.assumed),
-            'trusted_annotations': sorted(t['known'])}
+            'file': t['file'], 'lines': t.get('lines'), 'paths': n,
+            'opaque_callees_assumed_dtype_agnostic': sorted(ex.assumed),
+            'trusted_annotations': sorted(t['known']), 'typed_inputs': t.get('typed', {}),
+            'returns': t.get('returns')}
+
+
+def evaluate_refused(ctx):
+    """the candidates that are not obligations: what the extractor / the analysis say about them today"""
+    terms, owners = [], []
+    out = ctx.cov.setdefault('refused_candidates', {})
+    for t in REFUSED:
+        try:
+            cs, ex = obligation_cases(t, REPO)
+        except Untranslatable as e:
+            out[t['name']] = {'file': t['file'], 'reason': t['reason'], 'today': 'untranslatable: ' + str(e)[:160]}
+            continue
+        except (OSError, SyntaxError) as e:
+            out[t['name']] = {'file': t['file'], 'reason': t['reason'], 'today': type(e).__name__}
+            continue
+        out[t['name']] = {'file': t['file'], 'lines': f'{ex.fn.lineno}-{ex.fn.end_lineno}', 'reason': t['reason'],
+                          'paths': len(cs), 'today': 'accepted'}
+        for term, _ in cs:
+            terms.append(term)
+            owners.append(t['name'])
+    if terms:
+        for i in ctx.coq_eval_cases(['C15_Model'], 'check_case', terms, case_type='case', tag='refused'):
+            out[owners[i]]['today'] = 'rejected by the analysis'
+    for k, v in NOT_ATTEMPTED.items():
+        out[k] = {'reason': v, 'today': 'not attempted'}
+    ctx.stat('obligations', 'refused_candidates_listed', len(out))
 
 
 def run(ctx):
@@ -2589,8 +2936,10 @@ def run(ctx):
         'outcome), promote_types, can_cast(same_kind), _dtype_dispatch branch per dtype and byte order, random '
         'process_quantities calls (None / plain / Quantity in 6 units, equal, mixed, all-None, wrong name count), '
         'random IR programs interpreted on numpy (exception kind, final dtypes, values vs the float64 run). '
-        'O: IR programs extracted from the current source of the anchored functions, analysed for all combinations '
-        'of {f8,f4,i2,i8,u2,i4} input dtypes. V: product test entry points x representations on seeded scenes '
+        'O: IR programs extracted from the current source of 40 functions (input handling and array arithmetic of the '
+        'entry points of the product test), analysed for all combinations of {f8,f4,i2,i8,u2,i4} input dtypes (typed '
+        'inputs where another obligation fixes the dtype a function returns); candidates that are not obligations are '
+        'listed under refused_candidates with what the analysis says about them today. V: product test entry points x representations on seeded scenes '
         '(integer-valued star field with amplitudes up to 30000 and errors up to ~350 so that int16 products '
         'overflow, elliptical galaxy); distinct = distinct (entry, representation, scene) / table cell / program')
     ctx.cov['partial_clauses'] = [
@@ -2618,6 +2967,7 @@ def run(ctx):
     ]
     cases = []
     k_numpy_tables(ctx, cases)
+    k_reductions(ctx, cases)
     k_dispatch(ctx, cases)
     pq_meta = {}
     for _ in range(150 if quick else 1200):
@@ -2659,6 +3009,7 @@ def run(ctx):
                                                          'model': ctx.coq_eval_term(['C15_Model'], f'model_out ({cases[i][0]})')[:300]},
                           found_input=False)
     ctx.discharged += sum(1 for t in TARGETS if t['name'] not in rejected)
+    evaluate_refused(ctx)
     # ---- product test
     reps = REPS_QUICK if quick else REPS_ALL
     nscenes = 2 if quick else 8
